@@ -50,7 +50,8 @@ def observe(feats, cfg, dbfn=":memory:"):
         if look[k] != want[k]:
             fails.append(("lookup_after_edit_of_returned_object", k))
             break
-    for absent in ["no_such_key", "", "K_99"] + [i.swapcase() for i in stored_ids] + [i.upper() for i in stored_ids]:
+    pct = ["".join("%%%02X" % ord(ch) if n == 0 else ch for n, ch in enumerate(i)) for i in stored_ids if i]      # 'gene1' -> '%67ene1'
+    for absent in ["no_such_key", "", "K_99"] + [i.swapcase() for i in stored_ids] + [i.upper() for i in stored_ids] + pct + [i.replace(":", "%3A") for i in stored_ids if ":" in i]:
         if absent in stored_ids:
             continue
         try:
@@ -100,6 +101,7 @@ def random_hist(rng, n):
         {"kind": "list", "items": [{"t": "field", "name": "strand"}]},
         {"kind": "list", "items": [{"t": "call", "fn": "type_start"}]},
         {"kind": "list", "items": [{"t": "call", "fn": "auto_seqid"}]},
+        {"kind": "list", "items": [{"t": "call", "fn": "auto_colon"}]},
         {"kind": "list", "items": [{"t": "call", "fn": "name"}, {"t": "attr", "k": enc("ID")}]},
     ]
     for _ in range(n):
